@@ -6,7 +6,8 @@ from factorysimpy.helper.item import Item
 FOREIGN = 900000      # token ids >= FOREIGN denote events the store has never issued
 NONE_TOK = 999999     # the value None passed as a token
 
-# watchdog: one operation on the real class must return within OP_TIMEOUT seconds (a changed tree may loop forever);
+# watchdog: one operation on the real class must return within OP_TIMEOUT seconds OF CPU TIME of this process (a changed tree may loop
+# forever; CPU time, not wall-clock time: on a loaded machine a starved worker must not be mistaken for a hanging library).
 # BaseException so that no `except Exception` of the library swallows it
 import signal
 OP_TIMEOUT = float(os.environ.get("VERIF_OP_TIMEOUT", "10"))
@@ -14,11 +15,11 @@ class OpTimeout(BaseException): pass
 def _on_alarm(signum, frame): raise OpTimeout()
 def _arm():
     try:
-        signal.signal(signal.SIGALRM, _on_alarm); signal.setitimer(signal.ITIMER_REAL, OP_TIMEOUT)
+        signal.signal(signal.SIGPROF, _on_alarm); signal.setitimer(signal.ITIMER_PROF, OP_TIMEOUT)
     except ValueError:      # not in the main thread
         pass
 def _disarm():
-    try: signal.setitimer(signal.ITIMER_REAL, 0)
+    try: signal.setitimer(signal.ITIMER_PROF, 0)
     except ValueError: pass
 
 def mk_filter(name):
